@@ -108,8 +108,10 @@ func (p *Parser) Parse(namespace string, operationBuffer []byte) (*operation.Ope
 // ParseOperation parses and validates operation. Batch mode flag gives hints for the validation of
 // operation object (anticipating future pruning/checkpoint requirements).
 func (p *Parser) ParseOperation(namespace string, operationBuffer []byte, batch bool) (*model.Operation, error) {
-	// check maximum operation size against protocol before parsing
-	if len(operationBuffer) > int(p.MaxOperationSize) {
+	// check maximum operation size against protocol before parsing; the limit is about the request as it is
+	// submitted: an accepted operation is stored in re-encoded form, which may be longer than the request was
+	// (e.g. a number written 1e20 comes back as 100000000000000000000), and must still be readable then
+	if !batch && len(operationBuffer) > int(p.MaxOperationSize) {
 		return nil, fmt.Errorf("operation size[%d] exceeds maximum operation size[%d]", len(operationBuffer), int(p.MaxOperationSize))
 	}
 
